@@ -227,11 +227,34 @@ type CfgSpec struct {
 	Funcs    uint32 // bit f: function f registered
 	Accessor bool
 	Variant  int // which behaviour the registered functions have (same names, different functions)
+	// Replaced: the Config as it is after the caller "modified it after Parse": every menu
+	// function registered and replaced by one returning a marker, accessor mode set.
+	Replaced bool
+}
+
+func replacedFilter(v interface{}) (interface{}, error) { return "REPLACED-AFTER-PARSE", nil }
+func replacedAggregate(v []interface{}) (interface{}, error) {
+	return "REPLACED-AFTER-PARSE", nil
+}
+
+// modifyConfig is what the caller does to a Config value it keeps using after Parse.
+func modifyConfig(cfg *jsonpath.Config) {
+	for f := 0; f < nFuncs; f++ {
+		if isAggregate(f) {
+			cfg.SetAggregateFunction(funcNames[f], replacedAggregate)
+		} else {
+			cfg.SetFilterFunction(funcNames[f], replacedFilter)
+		}
+	}
+	cfg.SetAccessorMode()
 }
 
 func (c CfgSpec) String() string {
 	if !c.Present {
 		return "noconfig"
+	}
+	if c.Replaced {
+		return "cfg{every function replaced after an earlier Parse, ACCESSOR}"
 	}
 	s := "cfg{"
 	for f := 0; f < nFuncs; f++ {
@@ -250,6 +273,10 @@ func (c CfgSpec) String() string {
 
 func buildConfig(c CfgSpec) jsonpath.Config {
 	cfg := jsonpath.Config{}
+	if c.Replaced {
+		modifyConfig(&cfg)
+		return cfg
+	}
 	for f := 0; f < nFuncs; f++ {
 		if c.Funcs&(1<<uint(f)) == 0 {
 			continue
